@@ -10,6 +10,7 @@ import Driver.Encr
 import Driver.Acp
 import Driver.Rel
 import Driver.Schema
+import Driver.Restart
 
 partial def loop (h : IO.FS.Stream) (out : IO.FS.Stream) (f : List String → String) : IO Unit := do
   let line ← h.getLine
@@ -37,6 +38,7 @@ def main (args : List String) : IO UInt32 := do
   | ["acp"] => loopS stdin stdout Driver.Acp.step ({} : Driver.Acp.W); return 0
   | ["rel"] => loopS stdin stdout Driver.Rel.step ({} : Driver.Rel.W); return 0
   | ["schema"] => loopS stdin stdout Driver.Schema.step ({} : Driver.Schema.W); return 0
+  | ["restart"] => loopS stdin stdout Driver.Restart.step ({} : Driver.Restart.W); return 0
   | ["encr"] => loopS stdin stdout Driver.Encr.step ({} : Driver.Encr.W); return 0
   | ["events"] => loopS stdin stdout Driver.Events.step ({} : Driver.Events.St); return 0
   | ["mvcc"] => loopS stdin stdout Driver.Mvcc.step ({} : Defra.Mvcc.DB); return 0
